@@ -46,8 +46,8 @@ Definition enc_expect1 (e : expect1) : list Z :=
   | Exp1Nothing => [9]
   end.
 
-Definition mk_world (classes : list (nat * option (list val) * list nat)) (table : list (string * aent)) : world :=
-  {| w_classes := map (fun t => (fst (fst t), {| c_own_ob := snd (fst t); c_mro := snd t |})) classes;
+Definition mk_world (classes : list (nat * option (list val) * list nat * list val)) (table : list (string * aent)) : world :=
+  {| w_classes := map (fun t => (fst (fst (fst t)), {| c_own_ob := snd (fst (fst t)); c_mro := snd (fst t); c_params := snd t |})) classes;
      w_attrs := table;
      w_mixin := 1 |}.     (* the harness numbers GenericMixin 1 *)
 
@@ -59,14 +59,14 @@ Definition bz (b : bool) : Z := if b then 1 else 0.
 (* the harness numbers TypeVars below 20, type arguments from 20 *)
 Definition is_tvar (v : val) : bool := match v with VTok n => Nat.ltb n 20 | _ => false end.
 
-(* full = true: the driver says the layout has the shape of the *full* statement (the binding base got its
-   parameters through a chain of forwarding / partially binding classes) and ShBinding ts xs carries the
-   declaring class's TypeVars and the arguments resolved along the chain *)
+(* full = true: the driver says the binding base got its parameters through a chain of forwarding / partially binding
+   classes (at most 5 long: the call depth FUEL covers it) and ShBinding ts xs carries the declaring class's TypeVars and
+   the arguments resolved along the chain *)
 Definition shape_check (full : bool) (w : world) (c : nat) (o : option val) (s : shape) : bool :=
-  if full then match s with ShBinding ts xs => chain_binding_b is_tvar w c ts xs | _ => false end
+  if full then match s with ShBinding ts xs => chain_binding_b is_tvar w 5 c ts xs | _ => false end
   else shape_holds_b w c o s.
 
-Definition eval_case_tv (classes : list (nat * option (list val) * list nat)) (c : nat) (oc : option (list val))
+Definition eval_case_tv (classes : list (nat * option (list val) * list nat * list val)) (c : nat) (oc : option (list val))
            (op : nat) (s : shape) (full : bool) : list Z :=
   let w := mk_world classes [] in
   let o := match oc with Some xs => Some (VAlias (VCls c) xs) | None => None end in
@@ -133,7 +133,7 @@ Fixpoint first_per_id (seen : list nat) (cd : list mdef) : list mdef :=
    [0; n; n x (member; k; k x (id; v))]   the result
    then per member of ms the demanded pairs [k; k x (id; v)], then
    [claimed; no decorated dunder name; spec verdict on the model], then the journal [n; n x 5 numbers] *)
-Definition eval_case_dm (classes : list (nat * option (list val) * list nat)) (c : nat)
+Definition eval_case_dm (classes : list (nat * option (list val) * list nat * list val)) (c : nat)
            (ms : list string) (cd : list mdef) : list Z :=
   let demanded := flat_map (fun t => enc_pairs (decorated cd t)) ms in
   let jn := flat_map (def_journal prog_decorator_fun) (first_per_id [] cd) in
